@@ -10,7 +10,7 @@ from ..ctx import engine
 from ..model import AnalysisError, Program
 from ..paths import SymPath, contains, show, subterms
 from ..report import Report
-from .common import HANDLE_FAILURE, SELF, attr, ctor_args, emit_info, is_emit, path_where
+from .common import HANDLE_FAILURE, SELF, attr, ctor_args, emit_info, is_emit, path_where, owned_by
 from .failure_table import KLASS, classify, decode, failure_table, is_remaining_s, is_strategy_sel
 
 BASE = "redress.policy.base:_BaseRetryPolicy"
@@ -111,7 +111,7 @@ def run(rep: Report, prog: Program, tier: str) -> None:
         for n in prog._own_nodes(fn.node):
             if isinstance(n, ast.Attribute) and n.attr in ("_strategies", "_default_strategy") and isinstance(n.ctx, ast.Store):
                 rep.instance("R5.1", f"writer|{fn.qual}|{n.attr}")
-                if fn.qual == init.qual:
+                if owned_by(prog, fn, init.qual):
                     rep.ok("R5.1")
                 else:
                     rep.fail("R5.1", f"writer|{fn.qual}|{n.attr}", f"{fn.qual} re-binds `{n.attr}`", where=fn.where(n), function=fn.qual)
@@ -199,7 +199,7 @@ def run(rep: Report, prog: Program, tier: str) -> None:
         for n in prog._own_nodes(fn.node):
             if isinstance(n, ast.Attribute) and n.attr == "prev_sleep" and isinstance(n.ctx, ast.Store):
                 rep.instance("R5.3", f"prev_sleep-writer|{fn.qual}")
-                if fn.qual in (HANDLE_FAILURE, "redress.policy.state:_RetryState.__init__"):
+                if owned_by(prog, fn, (HANDLE_FAILURE, "redress.policy.state:_RetryState.__init__")):
                     rep.ok("R5.3")
                 else:
                     rep.fail("R5.3", f"prev_sleep-writer|{fn.qual}", f"{fn.qual} writes prev_sleep", where=fn.where(n), function=fn.qual)
